@@ -32,3 +32,11 @@ PROP = {
         "technique": "Lean 4 proof of totality over a model with explicit panic outcomes + malformed-stream correspondence",
     },
 }
+# --- round 2 (builder bVALEQ): the wire translation of values preserves value.Equal (Props/C19ValueEq.lean)
+PROP["modules"].append("Gnmi.Props.C19ValueEq")
+PROP["theorems"] += ["Gnmi.C19.equal_eq_valueEqual_toVal", "Gnmi.C19.nested_leaflist_limit", "Gnmi.C19.nil_payload_limit"]
+PROP["manifest"]["level_text"] += (
+    " Values: Wire.toVal preserves value.Equal (equal_eq_valueEqual_toVal: for every pair of decoded TypedValues without a leaf-list inside a "
+    "leaf-list the C19 model of Equal answers what the cache model's valueEqual answers on the translated values); the exact limit of the "
+    "cache model's value fragment is nested_leaflist_limit (a nested leaf-list is opaque to the model, Go's Equal recurses into it; "
+    "no generator builds one; witness replay in proposed_fixes/c19_nested_leaflist_model_limit.ops).")
